@@ -908,6 +908,7 @@ struct render {
 	short *pcm;
 	long nsamples;
 	int maxused, maxvoc, frames;
+	int has_background;	/* virtual channels beyond the tracks exist: voices can be evicted */
 	int surround, stereo_smp;
 };
 
@@ -923,6 +924,7 @@ static int render16(const char *path, const struct cfg *c, int nframes, struct r
 	if (x == NULL)
 		return -1;
 	r->maxvoc = ctx->p.virt.maxvoc;
+	r->has_background = ctx->p.virt.virt_channels > ctx->p.virt.num_tracks;
 	for (i = 0; i < ctx->m.mod.smp; i++) {
 		if (ctx->m.mod.xxs[i].flg & XMP_SAMPLE_STEREO)
 			r->stereo_smp = 1;
@@ -1007,7 +1009,8 @@ static int mode_solosum(uint64_t seed, int nframes, const char *path)
 		printf("skip %s\n", path);
 		return 0;
 	}
-	if (full.maxused >= full.maxvoc)
+	/* free_voice() only ever evicts background voices (chn >= num_tracks) */
+	if (full.has_background && full.maxused >= full.maxvoc)
 		evict = 1;
 	sum = (long *)calloc(full.nsamples + 1, sizeof(long));
 	{
@@ -1029,7 +1032,7 @@ static int mode_solosum(uint64_t seed, int nframes, const char *path)
 				free(full.pcm);
 				return 0;
 			}
-			if (part.maxused >= part.maxvoc)
+			if (part.has_background && part.maxused >= part.maxvoc)
 				evict = 1;
 			for (k = 0; k < full.nsamples; k++) {
 				if (part.pcm[k] == 32767 || part.pcm[k] == -32768)
